@@ -202,7 +202,7 @@ func checkArithmeticPrecedence(r *Run, emit *packages.Package, decls map[string]
 		if fd == nil || fd.Body == nil {
 			return false
 		}
-		ast.Inspect(fd.Body, func(m ast.Node) bool {
+		ast.Inspect(emitterHelperBody(emit, fd), func(m ast.Node) bool {
 			if bl, ok := m.(*ast.BasicLit); ok && bl.Kind == token.STRING && bl.Value == `"("` {
 				f = true
 			}
@@ -605,12 +605,15 @@ func evalPrecedenceIdiom(p *packages.Package, decls map[string]*ast.FuncDecl, cc
 			if kParam == nil {
 				return true
 			}
-			for si, fst := range fd.Body.List {
+			// the helper is read with its own private helpers inlined (the parentheses may be written by one) and with
+			// a condition that was given a name resolved to the comparison it names
+			helperBody := emitterHelperBody(p, fd)
+			for si, fst := range helperBody.List {
 				ifs, ok := fst.(*ast.IfStmt)
 				if !ok {
 					continue
 				}
-				be, ok := ast.Unparen(ifs.Cond).(*ast.BinaryExpr)
+				be, ok := ast.Unparen(resolveLocalCopy(info, fd.Body, ifs.Cond)).(*ast.BinaryExpr)
 				if !ok {
 					continue
 				}
@@ -682,7 +685,7 @@ func evalPrecedenceIdiom(p *packages.Package, decls map[string]*ast.FuncDecl, cc
 					_, bodyReturns = ifs.Body.List[len(ifs.Body.List)-1].(*ast.ReturnStmt)
 				}
 				restWrites := false
-				for _, later := range fd.Body.List[si+1:] {
+				for _, later := range helperBody.List[si+1:] {
 					if writesParen(later) {
 						restWrites = true
 					}
@@ -922,4 +925,11 @@ func typeSwitchInts(p *packages.Package, decls map[string]*ast.FuncDecl, fd *ast
 		return def, true
 	}
 	return nil, false
+}
+
+// emitterHelperBody: the body of a private emitter helper with the private helpers it calls inlined (exported methods —
+// WriteExpression itself — stay calls).
+func emitterHelperBody(p *packages.Package, fd *ast.FuncDecl) *ast.BlockStmt {
+	body, _ := inlineCallsOpt(p, fd, fd.Body, 2, func(fn *types.Func) bool { return fn.Exported() }, true)
+	return body
 }
